@@ -203,9 +203,19 @@ func extractSummary(r *Run, p *packages.Package, roles trackRoles, method string
 		}
 		return sel.Sel.Name
 	}
+	type activeIter struct {
+		it    *iteration
+		guard string
+	}
+	var iters []activeIter // index loops being walked: X[i] denotes the operated key inside them
 	keyGuard := func(e ast.Expr) (string, bool) {
 		id, ok := ast.Unparen(e).(*ast.Ident)
 		if !ok {
+			for _, a := range iters {
+				if a.it.IsElem(e) {
+					return a.guard, true
+				}
+			}
 			return "", false
 		}
 		g, ok := keyObjs[info.Uses[id]]
@@ -448,9 +458,37 @@ func extractSummary(r *Run, p *packages.Package, roles trackRoles, method string
 				} else {
 					s.Unknown = append(s.Unknown, "range over "+exprString(r.Fset, x.X))
 				}
+			case *ast.ForStmt:
+				// the index spelling of the same loops: for i := 0; i < len(X); i++ { … X[i] … }
+				it := fullIteration(info, x)
+				if it == nil {
+					s.Unknown = append(s.Unknown, "for loop that is not a plain iteration over a slice")
+					break
+				}
+				coll := resolveLocalCopy(info, fd.Body, it.Coll)
+				var g string
+				ok := false
+				if id, isId := ast.Unparen(coll).(*ast.Ident); isId {
+					if gg, isKey := keyObjs[info.Uses[id]]; isKey {
+						g, ok = gg, true
+					}
+				}
+				if of := operandField(coll); of != "" {
+					g, ok = "other."+of, true
+				}
+				if !ok {
+					s.Unknown = append(s.Unknown, "loop over "+exprString(r.Fset, it.Coll))
+					break
+				}
+				for obj := range it.elems {
+					keyObjs[obj] = g
+				}
+				iters = append(iters, activeIter{it, g})
+				walk(x.Body.List, "")
+				iters = iters[:len(iters)-1]
 			case *ast.BlockStmt:
 				walk(x.List, nilInit)
-			case *ast.ReturnStmt, *ast.BranchStmt, *ast.DeclStmt, *ast.EmptyStmt:
+			case *ast.ReturnStmt, *ast.BranchStmt, *ast.DeclStmt, *ast.EmptyStmt, *ast.IncDecStmt:
 			default:
 				s.Unknown = append(s.Unknown, fmt.Sprintf("%T", st))
 			}
@@ -863,31 +901,43 @@ func checkPropertiesClone(r *Run, gp *packages.Package) {
 	info := gp.TypesInfo
 	fresh := map[string]bool{}
 	aliased := ""
-	ast.Inspect(fd.Body, func(n ast.Node) bool {
-		as, ok := n.(*ast.AssignStmt)
-		if !ok || len(as.Lhs) != 1 || len(as.Rhs) != 1 {
-			return true
-		}
-		sel, ok := ast.Unparen(as.Lhs[0]).(*ast.SelectorExpr)
-		if !ok {
-			return true
-		}
-		name := sel.Sel.Name
+	// the clone's fields are given their values by assignments `c.F = …` or by the keys of a Properties literal
+	judge := func(name string, rhs ast.Expr) {
 		if name != "Map" && name != "Modified" && name != "Deleted" {
-			return true
+			return
 		}
-		if call, ok := ast.Unparen(as.Rhs[0]).(*ast.CallExpr); ok {
+		if call, ok := ast.Unparen(rhs).(*ast.CallExpr); ok {
 			if id, ok := call.Fun.(*ast.Ident); ok && id.Name == "make" {
 				fresh[name] = true
-				return true
+				return
 			}
 			if fn := calleeOf(info, call); fn != nil && (fn.Name() == "Clone" || fn.Name() == "Copy") {
 				fresh[name] = true
-				return true
+				return
 			}
 		}
-		if rs, ok := ast.Unparen(as.Rhs[0]).(*ast.SelectorExpr); ok && rs.Sel.Name == name {
+		if rs, ok := ast.Unparen(rhs).(*ast.SelectorExpr); ok && rs.Sel.Name == name {
 			aliased = name
+		}
+	}
+	ast.Inspect(fd.Body, func(n ast.Node) bool {
+		switch x := n.(type) {
+		case *ast.AssignStmt:
+			if len(x.Lhs) == 1 && len(x.Rhs) == 1 {
+				if sel, ok := ast.Unparen(x.Lhs[0]).(*ast.SelectorExpr); ok {
+					judge(sel.Sel.Name, x.Rhs[0])
+				}
+			}
+		case *ast.CompositeLit:
+			if namedName(info.TypeOf(x)) == "Properties" {
+				for _, el := range x.Elts {
+					if kv, ok := el.(*ast.KeyValueExpr); ok {
+						if k, ok := kv.Key.(*ast.Ident); ok {
+							judge(k.Name, kv.Value)
+						}
+					}
+				}
+			}
 		}
 		return true
 	})
